@@ -362,7 +362,7 @@ fn writer_race(kind: u8, when: usize) {
     let n: u32 = kani::any();
     kani::assume(n >= 1);
     let (mut s, mut e) = mk_stream(0, 2, 2, 0, false);
-    *SCHED_TARGET.lock().unwrap() = Some(SchedTarget { data: &e.data as *const _, kind, n });
+    *SCHED_TARGET.lock().unwrap() = Some(SchedTarget { data: &e.data as *const _, kind, n, task: core::ptr::null(), task_fn: None });
     SCHED_FIRE_AT.store(usize::MAX, AO::Relaxed);
     let wakes0 = wakes();
     if when == 0 {
